@@ -69,8 +69,8 @@ def r2_consumers(ctx, chk, rule="C13.2"):
             banded = [(v, fo) for v, fo in folds.items() if fo is not None and getattr(fo, "band", False)]
             if banded:
                 v, fo = banded[0]
-                chk.violation(rule, where, "%s.%s keeps a running optimum `%s` under the tolerance-band comparison `%s`: the relation is not transitive, so which successors are selected depends on the order in which the transitions are written" % (cls, m, v, show(fo.cond)),
-                              expected="exact comparison of (rounded) keys", found=show(fo.cond), construct="%s.%s band comparison" % (cls, m))
+                chk.violation(rule, where, "%s.%s keeps a running optimum `%s` under the tolerance-band comparison `%s`: the relation is not transitive, so which successors are selected depends on the order in which the transitions are written" % (cls, m, v, show(getattr(fo, "cond_text", fo.cond))),
+                              expected="exact comparison of (rounded) keys", found=show(getattr(fo, "cond_text", fo.cond)), construct="%s.%s band comparison" % (cls, m))
                 continue
             bad = [(v, fo) for v, fo in folds.items() if fo is not None and fo.kind == "OTHER" and _used(k, ("res", lid, v))]
             if bad:
